@@ -90,14 +90,14 @@ RunClauses(e, i, r, LP, must, vecs, cvOK) ==
                                w @@ [missing |-> UciSet(LP \ os), stream |-> [k \in 1..Len(o) |-> Uci(o[k])]])
                    ELSE ViolAt(must \subseteq os, "C10", i, "loud-misses-capture-or-queen-promotion",
                                w @@ [missing |-> UciSet(must \ os), stream |-> [k \in 1..Len(o) |-> Uci(o[k])]])
-                /\ IF ~cvOK THEN TRUE
+                /\ IF ~cvOK \/ run.mut = 1 THEN TRUE
                    ELSE DriftAt(first.out = o \/ \E sc \in vecs : ModelOutput(c(sc)) = o,
                                 "C10", i, "stream-differs-from-model",
                                 w @@ [stream |-> [k \in 1..Len(o) |-> Uci(o[k])],
                                       model |-> [k \in 1..Len(first.out) |-> Uci(first.out[k])]])
         \* (the reports evaluate to TRUE; what is returned is bookkeeping: was the run compared with
         \* the model, and which branches of the model does this real run exercise)
-    IN  IF checks /\ cvOK /\ run.outcome = "ok"
+    IN  IF checks /\ cvOK /\ run.outcome = "ok" /\ run.mut = 0
         THEN [cv |-> 1, edges |-> IF first.out = o THEN first.labs ELSE {}]
         ELSE [cv |-> 0, edges |-> {}]
 
